@@ -60,6 +60,8 @@ pub struct S5Server {
     /// CONNECT relays in progress
     pub live_relays: Arc<AtomicI64>,
     pub control_connections: Arc<AtomicU64>,
+    /// associations whose relay is to die (its UDP sockets are closed; the control connection stays open)
+    pub kill_relays: Arc<Mutex<std::collections::HashSet<u64>>>,
     task: tokio::task::JoinHandle<()>,
 }
 
@@ -157,24 +159,26 @@ impl S5Server {
         let live_relays = Arc::new(AtomicI64::new(0));
         let control_connections = Arc::new(AtomicU64::new(0));
         let next_assoc = Arc::new(AtomicU64::new(0));
+        let kill_relays: Arc<Mutex<std::collections::HashSet<u64>>> = Default::default();
         let task = {
-            let (opts, log, live_assocs, live_relays, control_connections) = (opts.clone(), log.clone(), live_assocs.clone(), live_relays.clone(), control_connections.clone());
+            let (opts, log, live_assocs, live_relays, control_connections, kill_relays) = (opts.clone(), log.clone(), live_assocs.clone(), live_relays.clone(), control_connections.clone(), kill_relays.clone());
             tokio::spawn(async move {
                 loop {
                     let Ok((s, _)) = listener.accept().await else { continue };
                     let _ = s.set_nodelay(true);
                     control_connections.fetch_add(1, Ordering::SeqCst);
-                    let (opts, log, live_assocs, live_relays, next_assoc) = (opts.clone(), log.clone(), live_assocs.clone(), live_relays.clone(), next_assoc.clone());
-                    tokio::spawn(async move { Self::serve(s, opts, log, live_assocs, live_relays, next_assoc).await; });
+                    let (opts, log, live_assocs, live_relays, next_assoc, kill_relays) = (opts.clone(), log.clone(), live_assocs.clone(), live_relays.clone(), next_assoc.clone(), kill_relays.clone());
+                    tokio::spawn(async move { Self::serve(s, opts, log, live_assocs, live_relays, next_assoc, kill_relays).await; });
                 }
             })
         };
-        S5Server { addr, opts, log, live_assocs, live_relays, control_connections, task }
+        S5Server { addr, opts, log, live_assocs, live_relays, control_connections, kill_relays, task }
     }
 
     pub fn events(&self) -> Vec<S5Event> { self.log.lock().unwrap().clone() }
 
-    async fn serve(mut s: TcpStream, opts: Arc<Mutex<S5Opts>>, log: Arc<Mutex<Vec<S5Event>>>, live_assocs: Arc<AtomicI64>, live_relays: Arc<AtomicI64>, next_assoc: Arc<AtomicU64>) {
+    #[allow(clippy::too_many_arguments)]
+    async fn serve(mut s: TcpStream, opts: Arc<Mutex<S5Opts>>, log: Arc<Mutex<Vec<S5Event>>>, live_assocs: Arc<AtomicI64>, live_relays: Arc<AtomicI64>, next_assoc: Arc<AtomicU64>, kill_relays: Arc<Mutex<std::collections::HashSet<u64>>>) {
         let o = opts.lock().unwrap().clone();
         let mut b = [0u8; 2];
         if s.read_exact(&mut b).await.is_err() || b[0] != 5 { return; }
@@ -263,7 +267,14 @@ impl S5Server {
                             if let Some(c) = client { let _ = relay_sock.send_to(&wrap(from, &b2[..n]), c).await; }
                         }
                         r = s.read(&mut ctl) => match r { Ok(n) if n > 0 => {}, _ => break },
+                        _ = tokio::time::sleep(Duration::from_millis(5)) => { if kill_relays.lock().unwrap().contains(&assoc) { break; } }
                     }
+                }
+                if kill_relays.lock().unwrap().contains(&assoc) {
+                    // the relay dies (datagrams to it now bounce as port unreachable) while the control connection stays open
+                    drop(relay_sock);
+                    drop(out);
+                    loop { match s.read(&mut ctl).await { Ok(n) if n > 0 => {}, _ => break } }
                 }
                 live_assocs.fetch_sub(1, Ordering::SeqCst);
                 log.lock().unwrap().push(S5Event::AssocClosed { assoc });
